@@ -171,6 +171,8 @@ type HarnessResult struct {
 	rangeAss   []*Term
 	x          *Exec
 	fn         *ssa.Function
+	splitVars  []string
+	splits     []*Term
 }
 
 func loadProgram(cfg *PropConfig, g *genFiles) (*ssa.Program, []*packages.Package) {
@@ -255,6 +257,7 @@ func runHarness(prog *ssa.Program, pkg *ssa.Package, dir, name string, concrete 
 	hr.Steps = x.steps
 	hr.assumes = x.assumes
 	hr.rangeAss = x.rangeAss
+	hr.splitVars = x.splitVars
 	for g := range x.uninitGlob {
 		hr.Uninit = append(hr.Uninit, g)
 	}
@@ -540,6 +543,74 @@ func discharge(cfg *PropConfig, hr *HarnessResult, getPool func(string) *Pool, s
 		c = append(c, o.guard)
 		return c
 	}
+	// implicit checks (panic / unwinding) are first tried in batches: one query for the disjunction of all
+	// guards recorded under the same assumption prefix; only if that is satisfiable are they decided one by one
+	batched := map[*Obligation]bool{}
+	{
+		groups := map[int][]*Obligation{}
+		for _, o := range hr.Obls {
+			if o.Kind == "panic" || o.Kind == "unwind" {
+				groups[o.nAssume] = append(groups[o.nAssume], o)
+			}
+		}
+		type bq struct {
+			os   []*Obligation
+			body string
+			vars []string
+			conj []*Term
+			res  QueryResult
+			im   bool
+		}
+		var bqs []*bq
+		for n, os := range groups {
+			if len(os) < 4 {
+				continue
+			}
+			var gs []*Term
+			for _, o := range os {
+				gs = append(gs, o.guard)
+			}
+			c := append([]*Term{}, hr.rangeAss...)
+			c = append(c, hr.assumes[:n]...)
+			c = append(c, mkOr(gs...))
+			b := &bq{os: os, conj: c}
+			if intModeRe != nil && intModeRe.MatchString(hr.Name) {
+				if body, v, ok := buildQueryInt(c); ok {
+					b.body, b.vars, b.im = body, v, true
+				}
+			}
+			if b.body == "" {
+				b.body, b.vars = buildQuery(c)
+			}
+			bqs = append(bqs, b)
+		}
+		var wg sync.WaitGroup
+		for _, b := range bqs {
+			wg.Add(1)
+			go func(b *bq) {
+				defer wg.Done()
+				sn := solver
+				if hasFP(b.conj) {
+					sn = fpSolver
+				}
+				if b.im {
+					sn = "z3-new"
+				}
+				b.res = getPool(sn).query(b.body, nil, timeout)
+			}(b)
+		}
+		wg.Wait()
+		for _, b := range bqs {
+			if b.res.Verdict == "unsat" {
+				for _, o := range b.os {
+					batched[o] = true
+					o.Verdict = "unsat"
+					o.TimeMS = b.res.MS / int64(len(b.os))
+					o.SMTBytes = len(b.body) / len(b.os)
+				}
+			}
+		}
+	}
 	for _, o := range hr.Obls {
 		switch o.Kind {
 		case "assert":
@@ -549,7 +620,14 @@ func discharge(cfg *PropConfig, hr *HarnessResult, getPool func(string) *Pool, s
 					v = append(v, mkNot(k.region))
 				}
 			}
-			js = append(js, &job{o: o, mode: "viol", conj: v})
+			if parts := hr.splitCases(); len(parts) > 1 {
+				// case split on a declared finite input: the violation query is decided per value
+				for _, pc := range parts {
+					js = append(js, &job{o: o, mode: "viol", conj: append(append([]*Term{}, v...), pc)})
+				}
+			} else {
+				js = append(js, &job{o: o, mode: "viol", conj: v})
+			}
 			js = append(js, &job{o: o, mode: "reach", conj: base(o)})
 			for _, k := range o.known {
 				if _, listed := knownGlobal[k.ID]; !listed {
@@ -559,6 +637,9 @@ func discharge(cfg *PropConfig, hr *HarnessResult, getPool func(string) *Pool, s
 				js = append(js, &job{o: o, mode: "known:" + k.ID, conj: kv})
 			}
 		case "panic", "unwind":
+			if batched[o] {
+				continue
+			}
 			js = append(js, &job{o: o, mode: "viol", conj: base(o)})
 		case "reach":
 			js = append(js, &job{o: o, mode: "reach", conj: base(o)})
@@ -624,8 +705,15 @@ func discharge(cfg *PropConfig, hr *HarnessResult, getPool func(string) *Pool, s
 		o.TimeMS += j.res.MS
 		switch {
 		case j.mode == "viol":
-			o.Verdict = j.res.Verdict
-			if j.res.Verdict == "sat" {
+			// aggregate over case-split parts: sat wins, then unknown/error, then unsat
+			switch {
+			case o.Verdict == "sat":
+			case j.res.Verdict == "sat":
+				o.Verdict = "sat"
+			case o.Verdict == "" || o.Verdict == "unsat":
+				o.Verdict = j.res.Verdict
+			}
+			if j.res.Verdict == "sat" && o.modelLits == nil {
 				o.Model = map[string]uint64{}
 				o.modelLits = j.res.Model
 			}
@@ -648,6 +736,48 @@ func discharge(cfg *PropConfig, hr *HarnessResult, getPool func(string) *Pool, s
 			o.knownRes[strings.TrimPrefix(j.mode, "known:")] = j.res
 		}
 	}
+}
+
+// splitCases: one constraint per combination of values of the inputs declared with vSplit (bounded product)
+func (hr *HarnessResult) splitCases() []*Term {
+	if hr.splits != nil {
+		return hr.splits
+	}
+	cases := []*Term{ts.True}
+	for _, name := range hr.splitVars {
+		var iv *InputVar
+		for _, c := range hr.Inputs {
+			if c.Name == name {
+				iv = c
+			}
+		}
+		if iv == nil || iv.t.isConst() {
+			continue
+		}
+		var vals []*Term
+		switch {
+		case iv.Kind == "bool":
+			vals = []*Term{iv.t, mkNot(iv.t)}
+		case iv.N > 0:
+			for k := 0; k < iv.N; k++ {
+				vals = append(vals, mkEq(iv.t, mkConst(iv.t.w, uint64(k))))
+			}
+		default:
+			continue
+		}
+		var nc []*Term
+		for _, c := range cases {
+			for _, v := range vals {
+				nc = append(nc, mkAnd(c, v))
+			}
+		}
+		cases = nc
+		if len(cases) > 64 {
+			break
+		}
+	}
+	hr.splits = cases
+	return cases
 }
 
 var intModeRe *regexp.Regexp
